@@ -293,6 +293,13 @@ func exerciseAll(data []byte) (problem string) {
 		if err != nil {
 			continue
 		}
+		for i := range a.Frames {
+			if im := a.Frames[i].Image; im != nil {
+				if p := wellFormed(im); p != "" {
+					return fmt.Sprintf("DecodeFrames: frame %d: %s", i, p)
+				}
+			}
+		}
 		d, err := animation.NewAnimDecoder(a)
 		if err != nil {
 			continue
@@ -642,6 +649,15 @@ func c05BaseFiles(rng *rand.Rand) map[string][]byte {
 	}
 	e.Close()
 	files["animation-mixed-alpha"] = append([]byte(nil), buf.Bytes()...)
+	buf.Reset()
+	e = animation.NewEncoder(&buf, 20, 16, &animation.EncodeOptions{Quality: 40, Kmax: 1}) // every frame a lossy key frame (VP8 [+ ALPH] inside ANMF)
+	prev = noiseNRGBA(rng, 20, 16, 0)
+	for k := 0; k < 2; k++ {
+		e.AddFrame(prev, 25*time.Millisecond)
+		prev = editPicture(rng, noiseNRGBA(rng, 20, 16, 2), 2)
+	}
+	e.Close()
+	files["animation-lossy"] = append([]byte(nil), buf.Bytes()...)
 	return files
 }
 
@@ -702,7 +718,7 @@ func checkC05(args []string) {
 	}
 	sort.Strings(names)
 	// fault sequences from TLC
-	nfields := 40
+	nfields := 72 // at least the field count of the largest base file (checked below)
 	gen := vx.MustTLC(vx.TLCOpts{Module: "Fault", Cfg: fmt.Sprintf("SPECIFICATION Spec\nCONSTANTS NFIELDS = %d\nMAXFAULTS = 1\nCHECK_DEADLOCK FALSE\n", nfields), Workers: 1, Timeout: 20 * time.Minute})
 	run.AddTLC(gen)
 	sim := vx.MustTLC(vx.TLCOpts{Module: "Fault", Cfg: fmt.Sprintf("SPECIFICATION Spec\nCONSTANTS NFIELDS = %d\nMAXFAULTS = 2\nCHECK_DEADLOCK FALSE\n", nfields), Workers: 1,
@@ -764,6 +780,9 @@ func checkC05(args []string) {
 			vx.Fatal2("base file %s is not accepted by the strict reader: %s", n, lay[n].Why)
 		}
 		fs, cs := fieldsFromLayout(lay[n], base)
+		if len(fs) > nfields {
+			vx.Fatal2("C05: base file %s has %d fields, the fault model enumerates %d slots", n, len(fs), nfields)
+		}
 		foreign := bases[names[(bi+1)%len(names)]]
 		for _, s := range singles {
 			if s[0].Slot >= len(fs) {
